@@ -190,6 +190,9 @@ pub fn tree_walker(
         let gitignore = parse_ignore(&source, config)?;
 
         for entry in WalkDir::new(&source)
+            // A symlink given as a source is copied as a link, not
+            // also descended into, unless we're dereferencing.
+            .follow_root_links(config.dereference)
             .into_iter()
             .filter_entry(|e| ignore_filter(e, &gitignore))
         {
